@@ -2,6 +2,7 @@
 From Coq Require Export List String Ascii NArith Bool Arith Lia.
 Export ListNotations.
 Open Scope string_scope.
+Open Scope list_scope.
 
 (** Strings that are not printable ASCII are written by the harness as [s_of [bytes]]. *)
 Fixpoint s_of (l : list N) : string :=
